@@ -23,7 +23,7 @@ def jobs(thorough):
     tu = C.PRELUDE + C.factorial_contract(False) + C.norm_contract(6, 6) + slice_fn + "void h_norm(void){ const uint32_t* order; uint32_t dim; size_t n; vp_norm_slice(order, dim, n); __CPROVER_assert(0, \"canary: reachable after call\"); }\n"
     js.append(vlib.Job("C14-norm-slice", tu, "h_norm", enforce="vp_norm_slice", replace=["factorial"], loop_contracts=False,
                        expect_fail=[r"^h_norm\.assertion\.1$", r"^vp_norm_slice\.postcondition\.[23]$"], must_have=[r"factorial\.precondition", r"vp_norm_slice\.postcondition\.1"],
-                       timeout=1200, backend="cbmc-sat-contracts", note="slice of splinetable::convolve (text between 'const uint32_t k = order[dim] + 1;' and 'norm *= -1;'), factorial replaced by its contract; k<=6, q<=6"))
+                       timeout=1200, backend="cbmc-sat-contracts", note="slice of splinetable::convolve (text from 'const uint32_t k = order[dim] + 1;' up to the allocation of the new coefficient array), factorial replaced by its contract; k<=6, q<=6"))
     NMAX = 8 if not thorough else 12
     tu = C.PRELUDE + C.divdiff_contract(NMAX) + dv.text(None) + r'''
 void* malloc(size_t);
@@ -38,8 +38,19 @@ void h_divdiff(void){ size_t sx, sy, n; __CPROVER_assume(sx <= 64 && sy <= 64); 
                        note="divdiff replaced by its contract; loops closed by invariants; nx,ny<=%d" % NMAX))
     return [fa, dv, cb], slice_src, js
 
+def replay_convolve(v):
+    """transfer matrix / normalisation: convolve all-ones tables of order 0..5 through the real library"""
+    from tools import native
+    exe = native.build_driver("replay_convolve", ["src/core/bspline.cpp", "src/core/convolve.cpp", "src/core/fitsio.cpp"], sanitize=False)
+    outs = []; bad = False
+    for o in range(6):
+        rc, out, w = vlib.sh("%s %d" % (exe, o), timeout=120)
+        outs.append(out.strip().splitlines()[0] if out.strip() else "rc=%d" % rc); bad = bad or rc != 0
+    return dict(replayed=bad, input="1-D all-ones tables of order 0..5 convolved with the 3-knot kernel {-0.4, 0.1, 0.7}", driver="tools/replay/replay_convolve.cpp (real splinetable::convolve)", observed=outs)
+
 def replayer(v):
-    """factorial / normalisation: run the real function natively over its whole small domain"""
+    """factorial: run the real function natively over its whole small domain; everything else: real convolve()"""
+    if "factorial" not in v["job"]: return replay_convolve(v)
     exe = os.path.join(vlib.workdir(), "replay_factorial")
     src = os.path.join(vlib.workdir(), "replay_factorial.cpp")
     with open(src, "w") as f:
@@ -55,9 +66,11 @@ if __name__ == "__main__":
     fns, slice_src, js = jobs(vlib.TIER == "thorough")
     vlib.run_jobs(js, nproc=4)
     rep = vlib.Report("C14"); rep.add_jobs(js)
+    import c14_exact
+    c14_exact.add(rep, vlib.TIER == "thorough")
     for f in fns: rep.functions.append(f.info())
     rep.functions.append(dict(function="splinetable::convolve [normalisation slice]", file="include/photospline/detail/convolve.h", sha_extracted=X.sha(slice_src), rules_fired={"slice": 1}))
-    rep.assume("PARTIAL: only the normalisation (value and sign formula (-1)^k q!(k-1)!/(k+q-1)!), factorial on n<=12, and memory safety of divdiff/convoluted_blossom are decided; that norm*convoluted_blossom is the exact convolution coefficient is decided by the E3-rational obligations when present (see jobs), otherwise NOT decided",
+    rep.assume("PARTIAL: decided are factorial on n<=12, the normalisation value, memory safety of divdiff/convoluted_blossom (contracts), and - by exact rational execution of the extracted code against an exact piecewise-polynomial oracle on enumerated shapes - that the transfer-matrix entries norm*convoluted_blossom reproduce the true convolution with the unit-area kernel",
                "the body of splinetable::convolve outside the slice (knot merge/sort, storage replacement, extents, transfer-matrix application) is C++ outside reach: assumed",
                "extraction R13: std::vector<double> v(n) -> VLA, .data() dropped (convoluted_blossom)",
                "machine arithmetic: the slice postcondition is bit-exact IEEE (one division of exactly representable integers)")
